@@ -188,7 +188,11 @@ func genStorm(tier string, rng *Rng, prop string) []Case {
 		}
 		ops := []Op{{Kind: "script", Script: scriptFor(rs)}}
 		k := 16 + rng.Intn(17)
-		ops = append(ops, Op{Kind: "par", N: k})
+		par := Op{Kind: "par", N: k}
+		if i%2 == 1 {
+			par.Dt = 1 // destinations that answer before reading the request body
+		}
+		ops = append(ops, par)
 		for j := 0; j < k; j++ {
 			tg := rng.Pick([]string{"/fixed/a", "/fixed/b", "/q/x", "/q/y/z", "/exact", "/other"})
 			if rng.Chance(85, 100) {
